@@ -51,7 +51,8 @@ Params(f) ==
                           model |-> {"hypo", "hyperIfin", "hyperFin"}]
     [] f = "Kenamond1" -> [geometry |-> {2, 3}, D |-> Pick({<<1, 1>>, <<2, 1>>}, {}), t_d |-> Pick({<<0, 1>>, <<1, 2>>}, {}),
                            x_d |-> {<< <<0, 1>>, <<0, 1>>, <<0, 1>> >>, << <<1, 1>>, <<1, 2>>, <<-3, 4>> >>}]
-    [] f = "Kenamond2" -> [geometry |-> {2, 3}, R |-> Pick({<<3, 1>>, <<5, 2>>}, {}), D1 |-> Pick({<<2, 1>>, <<5, 2>>}, {}), D2 |-> Pick({<<1, 1>>, <<3, 2>>}, {})]
+    [] f = "Kenamond2" -> [geometry |-> {2, 3}, R |-> Pick({<<3, 1>>, <<5, 2>>}, {}), D1 |-> Pick({<<2, 1>>, <<5, 2>>}, {}), D2 |-> Pick({<<1, 1>>, <<3, 2>>}, {}),
+                           tshift |-> Pick({<<0, 1>>, <<4, 1>>, <<-4, 1>>}, {})]      \* a common shift of the five detonation times keeps them admissible
     [] f = "Kenamond3" -> [geometry |-> {2, 3}, R |-> Pick({<<3, 1>>, <<5, 2>>}, {}), D |-> Pick({<<2, 1>>, <<1, 1>>}, {}), t_d |-> Pick({<<0, 1>>, <<1, 2>>}, {}),
                            x_d |-> {<< <<0, 1>>, <<5, 1>>, <<0, 1>> >>, << <<1, 1>>, <<6, 1>>, <<-2, 1>> >>}]
     [] f = "DSDcyl" -> [r_1 |-> Pick({<<1, 1>>, <<4, 5>>}, {}), r_2 |-> Pick({<<2, 1>>, <<5, 2>>}, {}), D_CJ_1 |-> Pick({<<1, 2>>, <<1, 1>>}, {}),
